@@ -284,6 +284,9 @@ package protocol
 //@   witness src = "a=b; SameSite="
 //@   modifies *
 //@   assert @C17 before append: sameSlice(arg1, kv.key) || sameSlice(arg1, kv.value)
+//@   forbid @C17 normalizePath
+//@   forbid @C17 decodeArgAppend
+//@   forbid @C17 decodeArgAppendNoPlus
 
 // C17 (cookie serialiser): an attribute is written as "; " name "=" value, byte for byte.
 //@ func appendCookiePart(dst, key, value) r
